@@ -143,6 +143,17 @@ func c07Enumerate(r *mc.Report, n int, shard, nshards int) {
 			if nshards > 1 && k%nshards != shard {
 				continue
 			}
+			if n >= 3 && mask&(1<<(1*n+2)) == 0 {
+				// (a member depending on its own group would be a cycle: C05's subject)
+				// services 1 and 2 are two members (of one type) of one group
+				mt := uniformTargets(n, "plain")
+				mt[1], mt[2] = "group", "group"
+				cfgRun(r, cfgCase{N: n, Mask: mask, Life: life, Target: mt, Shape: "in", Extra: "merge12"}, c07Oracle)
+				if n == 4 {
+					mt[3] = "keyed"
+					cfgRun(r, cfgCase{N: n, Mask: mask, Life: life, Target: mt, Shape: "in", Extra: "merge12"}, c07Oracle)
+				}
+			}
 			for _, t := range targets {
 				cfgRun(r, cfgCase{N: n, Mask: mask, Life: life, Target: t, Shape: "in"}, c07Oracle)
 				if fmt.Sprint(t) == fmt.Sprint(uniformTargets(n, "plain")) {
@@ -156,7 +167,7 @@ func c07Enumerate(r *mc.Report, n int, shard, nshards int) {
 func init() {
 	mc.Register(&mc.Check{
 		Prop: "C07",
-		Rule: "all dependency DAGs on <=4 services (edges respecting a fixed order; 1/2/8/64 DAGs) x all 3^n lifetime assignments x dependency forms: every per-target combination of {plain, keyed, group} for n<=3, uniform plain/keyed/group for n=4, interface aliases for the last one/two services, In-struct and positional consumers; Build verdict compared with the model (lifetime-conflict error through BuildError iff some singleton/transient declares a dependency whose registration is scoped); on success every identity is resolved from a scope, its child and again, and no recorded constructor invocation of a singleton/transient may have received an instance of a scoped registration. distinct = (size, edge forms, verdict, model verdict) classes.",
+		Rule: "all dependency DAGs on <=4 services (edges respecting a fixed order; 1/2/8/64 DAGs) x all 3^n lifetime assignments x dependency forms: every per-target combination of {plain, keyed, group} for n<=3, uniform plain/keyed/group for n=4, interface aliases for the last one/two services, two-member groups of one type with every lifetime mix, In-struct and positional consumers; Build verdict compared with the model (lifetime-conflict error through BuildError iff some singleton/transient declares a dependency whose registration is scoped); on success every identity is resolved from a scope, its child and again, and no recorded constructor invocation of a singleton/transient may have received an instance of a scoped registration. distinct = (size, edge forms, verdict, model verdict) classes.",
 		Assume:      []string{"'random larger sets' of the property are not covered: the claim is all sets with <= 4 services"},
 		MinOutcomes: 6,
 		Jobs: func(tier string) []mc.Job {
